@@ -6,6 +6,7 @@ manifest text, any number of remotes and any completion order.
 import ArvVerif.Proofs.C18
 import ArvVerif.Proofs.C18_Legacy
 import ArvVerif.Proofs.C18_Lines
+import ArvVerif.Proofs.C18_Race
 namespace ArvVerif.C18
 
 /-! ## Conn.CollectionGet by portable data hash -/
@@ -210,6 +211,41 @@ theorem C18_only_valid_returned_in_history (md5 : Str → Str) (history : List S
         c = (if rid = [] then rc else { rc with manifest := rewriteManifest rc.manifest rid })) := by
   rw [C18_history_independent md5 history k s hk] at h
   exact C18_only_valid_returned md5 s c hlen (Option.some.inj h)
+
+/-! ## answers that arrive together -/
+
+/-- `collectionGetAnyOrder` is exactly the set of results over all completion orders: `r` is in it
+iff `r` is the result for some permutation of the answering remotes. -/
+theorem C18_any_order_is_all_orders (md5 : Str → Str) (s : Script) (r : Result) :
+    r ∈ collectionGetAnyOrder md5 s ↔
+      ∃ o : List (Str × Answer), o.Perm s.order ∧ collectionGet md5 { s with order := o } = r := by
+  simp only [collectionGetAnyOrder, List.mem_map, mem_perms_iff]
+
+/-- Whatever the interleaving of answers that arrive together, a collection handed to the client
+is one remote's answer that passed the hash test **as received**, rewritten with the id of the
+very remote that sent it (never with another remote's id), or the local cluster's verified answer. -/
+theorem C18_any_order_only_valid (md5 : Str → Str) (s : Script) (c : Coll)
+    (hlen : s.req.length ≠ 27) (h : Result.ok c ∈ collectionGetAnyOrder md5 s) :
+    (∃ lc, s.loc = .coll lc ∧ pdhOK md5 s.req lc.manifest = true ∧ c = lc) ∨
+    (s.loc = .err 404 ∧ s.fwd = [] ∧
+      ∃ rid rc, (rid, Answer.coll rc) ∈ s.order ∧ pdhOK md5 s.req rc.manifest = true ∧
+        c = (if rid = [] then rc else { rc with manifest := rewriteManifest rc.manifest rid })) := by
+  obtain ⟨o, hperm, hget⟩ := (C18_any_order_is_all_orders md5 s _).mp h
+  rcases C18_only_valid_returned md5 { s with order := o } c hlen hget with hl | ⟨h1, h2, rid, rc, hm, h3, h4⟩
+  · exact Or.inl hl
+  · exact Or.inr ⟨h1, h2, rid, rc, hperm.subset hm, h3, h4⟩
+
+/-- With the local cluster answering 404, an unforwarded request and an honest remote among those
+answering together, every interleaving ends in success. -/
+theorem C18_any_order_honest_succeeds (md5 : Str → Str) (s : Script) (rid : Str) (rc : Coll)
+    (hlen : s.req.length ≠ 27) (hloc : s.loc = .err 404) (hfwd : s.fwd = [])
+    (hm : (rid, Answer.coll rc) ∈ s.order) (hok : pdhOK md5 s.req rc.manifest = true) :
+    ∀ r ∈ collectionGetAnyOrder md5 s, ∃ c, r = .ok c := by
+  intro r hr
+  obtain ⟨o, hperm, hget⟩ := (C18_any_order_is_all_orders md5 s _).mp hr
+  obtain ⟨c, hc⟩ := C18_honest_remote_succeeds md5 { s with order := o } rid rc hlen hloc hfwd
+    (hperm.symm.subset hm) hok
+  exact ⟨c, by rw [← hget, hc]⟩
 
 /-! ## by-UUID requests (conn.go:248-255): relayed without a hash test -/
 
